@@ -29,7 +29,7 @@ RULE = ("Random grids of 2-12 daily/irregular timesteps of which ~85% carry an e
         "expanding. Non-trivial = fold strictly inside the grid with >= 2 valid starts or a refusal.")
 ASSUMPTIONS = ["the episode_length argument of reset() ('number of states') is not judged; the configured length is",
                "sampling_span cases only check membership, not reachability"]
-REQUIRED_CATS = ["latent-only-timestep", "events-added-then-rebuilt", "steps_delay:1", "steps_delay:2", "one-off-length-then-configured"]
+REQUIRED_CATS = ["timesteps-re-added-after-environment-built", "latent-only-timestep", "events-added-then-rebuilt", "steps_delay:1", "steps_delay:2", "one-off-length-then-configured"]
 REQUIRED = ["C15:decisions-exact", "C15:start-valid", "C15:visits-contiguous", "C15:every-start-reachable", "C15:refused-when-none-fits",
             "C15:whole-fold", "C15:walk-forward"]
 TECHNIQUE = "runtime monitoring: visited timesteps (observer clock per call) compared with the fold's event-bearing steps; seeded reachability sweep"
@@ -117,6 +117,11 @@ def case(ctx, i, tier):
         env = TradingEnv(action_space=BoxPortfolio([ETF("A")]), transmitter=tr, state=ep.Rec(sink),
                          episode_length=nlen, sampling_span=span, steps_delay=delay, latency=L)
         sink.env = env
+        if rng.random() < 0.3:
+            # the calendar is 'refreshed' after the environment was built: timesteps the transmitter already knows
+            # are handed over again, in any order (the raw list becomes unsorted and duplicated) - episodes do not care
+            tr.add_timesteps(rng.sample(grid, rng.randint(1, len(grid))))
+            ctx.cat("timesteps-re-added-after-environment-built")
         starts = collections.Counter()
         valid = steps[:len(steps) - nlen] if len(steps) - nlen > 0 else []
         max_valid = max(max_valid, len(valid))
